@@ -359,7 +359,7 @@ theorem lexAct_tagreg (F : Frame inpS inpW δ) {ab ab' : Ab} {cs cw : Common} {l
         exact ⟨by simp only [shR, t1, p4], t2, by show _ ≤ cs.nextPos - 1; omega⟩
       · rename_i hx
         rw [optRel_none_l htag hx]
-        exact Or.inr ⟨rfl, fun hh => by rcases hh with hh | hh <;> cases hh⟩
+        exact Or.inr ⟨rfl, (fun hh => by rcases hh with hh | hh <;> cases hh), fun _ _ hh => by cases hh⟩
     · cases habs
   · split at habs
     · rename_i hP
@@ -381,7 +381,7 @@ theorem lexAct_tagreg (F : Frame inpS inpW δ) {ab ab' : Ab} {cs cw : Common} {l
           exact h.ret _ h.c rfl { h.l with tag := hr.updHash ch }
         · rename_i hx
           rw [optRel_none_l htag hx]
-          exact Or.inr ⟨rfl, fun _ => ⟨⟨h.c, h.l, h.sim, h.pc⟩, h.k⟩⟩
+          exact Or.inr ⟨rfl, (fun _ => ⟨⟨h.c, h.l, h.sim, h.pc⟩, h.k⟩), fun _ _ hh => by cases hh⟩
       · exact h.ret _ h.c rfl h.l
     · cases habs
   · simp only [Option.some.injEq] at habs; subst habs
